@@ -43,15 +43,28 @@ func c15Gen(seed uint64, run int, tier string) *Case {
 	c.Cfg["mode"] = int64(run % 5)
 	c.Cfg["countsel"] = int64(run / 5)
 	c.Stratum = []string{"fixed-count", "random-counts", "restart-mid-listing", "client-readdir", "count-too-small"}[run%5]
+	if (tier == "thorough" && run%250 == 7) || (tier != "thorough" && (run == 7 || run == 1008)) {
+		// thousands of entries with long names: the packed listing is larger than a megabyte
+		c.Stratum = "huge-directory+" + c.Stratum
+		c.Cfg["n"], c.Cfg["minname"], c.Cfg["maxname"] = 4000, 200, 255
+		c.Cfg["msize"] = 65536
+		c.Cfg["seg"] = rt.SegRandom
+		c.Cfg["mode"] = int64(r.Pick(0, 3))
+		c.Cfg["countsel"] = 1 << 20 // the largest count
+		c.Cfg["maxsteps"] = 6000000
+	}
 	return c
 }
 
-func c15Names(seed uint64, n, maxName int) []string {
+func c15Names(seed uint64, n, maxName int, minName ...int) []string {
 	r := NewRand(seed ^ 0xD1D1)
 	seen := map[string]bool{}
 	var out []string
 	for len(out) < n {
 		l := r.Pick(1, 2, 5, 20, maxName, r.Range(1, maxName))
+		if len(minName) > 0 && minName[0] > 0 {
+			l = r.Range(minName[0], maxName)
+		}
 		if l > maxName {
 			l = maxName
 		}
@@ -98,7 +111,7 @@ func c15Exec(x *Ctx) {
 	defer u.Cleanup()
 	dir := filepath.Join(u.Root, "d")
 	os.Mkdir(dir, 0o755)
-	names := c15Names(c.Seed, int(c.cfg("n")), int(c.cfg("maxname")))
+	names := c15Names(c.Seed, int(c.cfg("n")), int(c.cfg("maxname")), int(c.cfg("minname")))
 	for i, n := range names {
 		p := filepath.Join(dir, n)
 		switch i % 5 {
@@ -192,8 +205,11 @@ func c15Exec(x *Ctx) {
 				// every count from the largest entry size up to about three entries, chosen by run index
 				span := 2*largest + 8
 				cnt := largest + sel%span
-				if cnt > maxc {
+				if cnt > maxc || c.cfg("minname") > 0 {
 					cnt = maxc
+				}
+				if len(want) >= 1000 {
+					x.Probe("directory-of-1000+-entries")
 				}
 				c15List(x, p, func(int) int { return cnt }, want, fmt.Sprintf("fixed count %d (largest entry %d)", cnt, largest), dotu, -1)
 				x.Probe("fixed-count-listing")
